@@ -5,12 +5,13 @@
 package kvx
 
 import (
-	"sync/atomic"
 	"context"
 	"fmt"
+	"os"
 	"sort"
 	"strings"
 	"sync"
+	"sync/atomic"
 	"time"
 
 	"github.com/synnaxlabs/aspen/internal/cluster"
@@ -68,7 +69,9 @@ type stored struct {
 	value string
 }
 
-func (s stored) String() string { return fmt.Sprintf("v%d.lh%d del=%v %q", s.ver, s.lh, s.del, s.value) }
+func (s stored) String() string {
+	return fmt.Sprintf("v%d.lh%d del=%v %q", s.ver, s.lh, s.del, s.value)
+}
 
 type note struct {
 	key, value string
@@ -161,6 +164,14 @@ func (s *Sys) Close() {
 type failEngine struct {
 	xkv.DB
 	armed atomic.Bool
+	// armedW: the next write (Set or Delete) of the key wkey into a transaction is refused
+	armedW atomic.Bool
+	wkey   atomic.Value // string
+}
+
+func (e *failEngine) hits(key []byte) bool {
+	k, _ := e.wkey.Load().(string)
+	return string(key) == k && e.armedW.CompareAndSwap(true, false)
 }
 
 type failTx struct {
@@ -169,6 +180,20 @@ type failTx struct {
 }
 
 func (e *failEngine) OpenTx() xkv.Tx { return &failTx{Tx: e.DB.OpenTx(), e: e} }
+
+func (t *failTx) Set(ctx context.Context, key, value []byte, opts ...any) error {
+	if t.e.hits(key) {
+		return errors.New("injected: storage refused the write")
+	}
+	return t.Tx.Set(ctx, key, value, opts...)
+}
+
+func (t *failTx) Delete(ctx context.Context, key []byte, opts ...any) error {
+	if t.e.hits(key) {
+		return errors.New("injected: storage refused the write")
+	}
+	return t.Tx.Delete(ctx, key, opts...)
+}
 
 func (t *failTx) Commit(ctx context.Context, opts ...any) error {
 	if t.e.armed.CompareAndSwap(true, false) {
@@ -194,12 +219,15 @@ func (s *Sys) Ops() []string {
 	if s.faults < 1 {
 		for i := range s.S {
 			if s.used[i] < 2 {
-				ops = append(ops, fmt.Sprintf("df %d", i))
+				ops = append(ops, fmt.Sprintf("df %d", i), fmt.Sprintf("dw %d", i))
 			}
 		}
 	}
 	if st, ok := s.model["k1"]; (!ok || st.lh == 1) && s.locals < 2 {
 		ops = append(ops, "loc set", "loc del")
+		if s.faults < 1 {
+			ops = append(ops, "locw set")
+		}
 	}
 	if s.obsLate == nil {
 		ops = append(ops, "sub")
@@ -323,23 +351,59 @@ func (s *Sys) Apply(op string) (string, error) {
 		if _, err := s.builder.OpNet.UnaryClient().Send(ctx, addrOf(s.addr), kv.TxRequest{Sender: 2, Operations: batch}); err != nil {
 			return "", fmt.Errorf("deliver: %v", err)
 		}
-	case "df":
-		// a delivery whose storing transaction is refused by the engine: nothing is stored,
-		// nobody is notified; the same operation delivered again later is a first delivery
+	case "df", "dw":
+		// a delivery whose storing transaction is refused by the engine (df: at commit, dw: at
+		// the first write into it): nothing is stored, nobody is notified; the same operation
+		// delivered again later is a first delivery
 		var i int
 		fmt.Sscan(f[1], &i)
 		s.used[i]++
 		s.faults++
-		s.eng.armed.Store(true)
+		armed := &s.eng.armed
+		if f[0] == "dw" {
+			armed = &s.eng.armedW
+			s.eng.wkey.Store(s.S[i].Key)
+		}
+		armed.Store(true)
 		if _, err := s.builder.OpNet.UnaryClient().Send(ctx, addrOf(s.addr), kv.TxRequest{Sender: 2, Operations: []kv.Operation{s.S[i].real()}}); err != nil {
 			return "", fmt.Errorf("deliver: %v", err)
 		}
+		if f[0] == "dw" {
+			// the write is only attempted if the operation supersedes what is stored; the
+			// sentinel behind it tells when the pipeline is past it either way
+			if err := s.sync(); err != nil {
+				return "", err
+			}
+			s.eng.armedW.Store(false)
+			break
+		}
 		// wait until the pipeline has consumed the fault
-		for n := 0; s.eng.armed.Load(); n++ {
+		for n := 0; armed.Load(); n++ {
 			if n > 60000 {
 				return "", fmt.Errorf("the refused commit was never attempted")
 			}
 			time.Sleep(time.Millisecond)
+		}
+	case "locw":
+		// a local write whose storing transaction is refused by the engine at the write: it
+		// must be reported as failed, and it must leave the store and every subscriber as they
+		// were
+		s.faults++
+		s.locals++
+		s.eng.wkey.Store("k1")
+		s.eng.armedW.Store(true)
+		err := s.db.Set(ctx, []byte("k1"), []byte(fmt.Sprintf("k1@lost%d", s.counter+1)))
+		consumed := !s.eng.armedW.Load()
+		s.eng.armedW.Store(false)
+		if os.Getenv("KVX_DEBUG") != "" {
+			st, ok, _ := s.readStored("k1")
+			fmt.Fprintf(os.Stderr, "KVX locw: err=%v consumed=%v stored=%v present=%v\n", err, consumed, st, ok)
+		}
+		if consumed && err == nil {
+			return "", vk.Violationf("local-write-acknowledged-although-storage-refused-it", "Set(k1) returned nil although the engine refused the write inside its transaction; stored: %v", s.model["k1"])
+		}
+		if !consumed {
+			return "", fmt.Errorf("the injected write fault was not reached by a local Set")
 		}
 	case "loc":
 		hostLed = true
